@@ -5,6 +5,7 @@
  * (every exponent-distance class incl. > 255 and > 2047) and all triples over a smaller one,
  * x 4 precisions x 3 exponent modes. */
 #include "vh.h"
+#include <fenv.h>
 #include "vmalloc.h"
 
 #include "varint.h"
@@ -201,6 +202,10 @@ static vm_report vmr;
 static const char *trig = "untagged";
 
 /* returns selected precision index (for auto) or pi */
+/* the floating-point environment is per-thread hidden state: the library calls of a case run under g_round, the oracle
+ * in round-to-nearest; the bytes and the decoded values must not depend on it */
+static int g_round = FE_TONEAREST;
+static const char *round_name(void) { return g_round == FE_TONEAREST ? "to-nearest" : g_round == FE_DOWNWARD ? "downward" : g_round == FE_UPWARD ? "upward" : "toward-zero"; }
 static void run_case(const double *vals, size_t n, int pi, int mode, double req_err) {
     int is_auto = req_err > 0;
     size_t bound = varintFloatMaxEncodedSize(n, VARINT_FLOAT_PRECISION_FULL);
@@ -212,10 +217,13 @@ static void run_case(const double *vals, size_t n, int pi, int mode, double req_
     const char *eapi = is_auto ? "float.EncodeAuto" : "float.Encode";
     vm_begin_case(NULL);
     if (SB_ENTER()) {
+        fesetround(g_round);
         wrote = is_auto ? varintFloatEncodeAuto(dst, in, n, req_err, (varintFloatEncodingMode)mode, &sel) : varintFloatEncode(dst, in, n, (varintFloatPrecision)pi, (varintFloatEncodingMode)mode);
+        fesetround(FE_TONEAREST);
         SB_LEAVE();
         vm_end_case(&vmr);
     } else {
+        fesetround(FE_TONEAREST);
         vm_end_case(&vmr);
         vh_fail(eapi, vh_fault_name(), trig, "%s: %s", desc, vh_fault_msg);
         return;
@@ -240,10 +248,13 @@ static void run_case(const double *vals, size_t n, int pi, int mode, double req_
     size_t used = 0;
     vm_begin_case(NULL);
     if (SB_ENTER()) {
+        fesetround(g_round);
         used = varintFloatDecode(enc, n, out);
+        fesetround(FE_TONEAREST);
         SB_LEAVE();
         vm_end_case(&vmr);
     } else {
+        fesetround(FE_TONEAREST);
         vm_end_case(&vmr);
         vh_fail("float.Decode", vh_fault_kind == 1 ? (vh_fault_slot == 1 ? "read_past_input" : "write_past_capacity") : vh_fault_name(), trig, "%s (%s): %s", desc, PN[spi], vh_fault_msg);
         return;
@@ -289,6 +300,7 @@ static int exp_class(double a, double b) {
 int main(int argc, char **argv) {
     vh_init(argc, argv);
     vh_sandbox_init();
+    vh_watchdog(60); /* a library call that makes no progress for a whole period is reported as a hang */
     vh_gb_init(0, 70000 * 26 + 4096);
     vh_gb_init(1, 70000 * 26 + 4096);
     vh_gb_init(2, 70000 * 8 + 4096);
@@ -393,6 +405,51 @@ int main(int argc, char **argv) {
                 snprintf(ck, sizeof ck, "window/len%zu", LEN[li]);
                 vh_class(ck, "start %zu", start);
             }
+        }
+    }
+    /* rounding modes: singletons and windows once more under each directed rounding mode */
+    if (vh_section_begin("rounding-modes")) {
+        static const int RM[3] = {FE_DOWNWARD, FE_UPWARD, FE_TOWARDZERO};
+        for (int ri = 0; ri < 3; ri++) {
+            for (size_t i = 0; i < nDA; i++) {
+                if (!vh_case()) {
+                    continue;
+                }
+                g_round = RM[ri];
+                for (int pi = 0; pi < 4; pi++) {
+                    for (int mode = 0; mode < 3; mode++) {
+                        snprintf(desc, sizeof desc, "{%.17g (0x%016" PRIx64 ")} precision %s mode %s, rounding mode %s", DA[i], d2u(DA[i]), PN[pi], MN[mode], round_name());
+                        run_case(&DA[i], 1, pi, mode, 0);
+                    }
+                }
+                if (i % 3 == 0) {
+                    snprintf(desc, sizeof desc, "{%.17g} requested relative error 1e-3 mode INDEPENDENT, rounding mode %s", DA[i], round_name());
+                    run_case(&DA[i], 1, 0, 0, 1e-3);
+                }
+                g_round = FE_TONEAREST;
+            }
+            for (size_t start = 0; start + 64 <= nDA; start += 61) {
+                if (!vh_case()) {
+                    continue;
+                }
+                double v[64];
+                for (size_t i = 0; i < 64; i++) {
+                    v[i] = DA[(start + i * 97) % nDA];
+                }
+                g_round = RM[ri];
+                for (int pi = 0; pi < 4; pi++) {
+                    for (int mode = 0; mode < 3; mode++) {
+                        snprintf(desc, sizeof desc, "window len=64 start=%zu stride=97 of the alphabet, precision %s mode %s, rounding mode %s", start, PN[pi], MN[mode], round_name());
+                        run_case(v, 64, pi, mode, 0);
+                    }
+                }
+                g_round = FE_TONEAREST;
+            }
+            char ck[40];
+            g_round = RM[ri];
+            snprintf(ck, sizeof ck, "rounding/%s", round_name());
+            g_round = FE_TONEAREST;
+            vh_class(ck, "singletons and windows");
         }
     }
     /* every length: the packed sign / exponent / mantissa sections put element i at bit i*width of its section, so
